@@ -19,6 +19,7 @@ import (
 	"github.com/irai/packet/verifshim/vfuel"
 	"github.com/irai/packet/verifshim/vsched"
 	"github.com/irai/packet/verifshim/vtime"
+	"gopkg.in/yaml.v2"
 )
 
 // C18: DHCP leases survive restart; a damaged lease file cannot crash the server.
@@ -29,12 +30,16 @@ type binding struct {
 	ip  netip.Addr
 }
 
+func (b binding) String() string { return fmt.Sprintf("(id %s mac %s ip %s)", b.id, b.mac, b.ip) }
+
 func bindingsOf(l []dhcp4.VerifLease, at time.Time) []binding {
 	var b []binding
 	for _, v := range l {
 		// a binding is held when the lease is allocated, or when the client is negotiating again (discover state) while
 		// its acknowledged address is still within the lease time
-		if v.State == dhcp4.StateAllocated || (v.State == dhcp4.StateDiscover && v.IP.IsValid() && v.DHCPExpiry.After(at)) {
+		// (a lease whose time has run out is not a binding any more, even if the minute ticker has not freed it yet)
+		live := v.DHCPExpiry.IsZero() || v.DHCPExpiry.After(at)
+		if (v.State == dhcp4.StateAllocated && live) || (v.State == dhcp4.StateDiscover && v.IP.IsValid() && v.DHCPExpiry.After(at)) {
 			b = append(b, binding{hex.EncodeToString(v.ClientID), hex.EncodeToString(v.MAC), v.IP})
 		}
 	}
@@ -102,6 +107,128 @@ func loadImage(s *packet.Session, mode dhcp4.Mode, image []byte, present bool) (
 	return bindingsOf(h.VerifLeases(), vtime.Now()), h, ""
 }
 
+// loadState constructs a handler on a device image (lease file plus whatever else a crash left) and returns the loaded
+// bindings and the device content the construction left behind.
+func loadState(s *packet.Session, mode dhcp4.Mode, st map[string][]byte) (b []binding, left map[string][]byte, failure string) {
+	defer func() {
+		if e := recover(); e != nil {
+			failure = fmt.Sprintf("panic: %v @%s", e, panicSite())
+			if strings.Contains(fmt.Sprint(e), "budget exhausted") {
+				failure = "hang: " + failure
+			}
+		}
+	}()
+	vfs.Install(st)
+	vfuel.Set(5_000_000)
+	h, err := dhcpConfig(mode).New(s)
+	if err != nil {
+		return nil, nil, "New returned an error: " + err.Error()
+	}
+	return bindingsOf(h.VerifLeases(), vtime.Now()), vfs.Files(), ""
+}
+
+// fileBindings reads the (client id, MAC, IP) entries of a lease file with an independent, schema-free reading of the
+// YAML text (no state, expiry or subnet filtering).
+func fileBindings(img []byte) []binding {
+	var t struct {
+		Leases []struct {
+			ClientID []byte `yaml:"clientid"`
+			Addr     struct {
+				MAC []byte `yaml:"mac"`
+				IP  string `yaml:"ip"`
+			} `yaml:"addr"`
+		} `yaml:"leases"`
+	}
+	if yaml.Unmarshal(img, &t) != nil {
+		return nil
+	}
+	var b []binding
+	for _, l := range t.Leases {
+		ip, err := netip.ParseAddr(l.Addr.IP)
+		if err != nil {
+			continue
+		}
+		b = append(b, binding{hex.EncodeToString(l.ClientID), hex.EncodeToString(l.Addr.MAC), ip})
+	}
+	sort.Slice(b, func(i, j int) bool { return b[i].id < b[j].id })
+	return b
+}
+
+// yamlClass names the place of byte offset off in a lease file: "key-<path>" when it lies in the key (or indentation /
+// list marker) of its line, "value-<path>" when it lies in the scalar after the colon. The path is the key of the line
+// prefixed by the enclosing section (net1, net2, leases, and for list values the parent key).
+func yamlClass(img []byte, off int) string {
+	lines := bytes.SplitAfter(img, []byte("\n"))
+	pos := 0
+	section, parent := "", ""
+	for _, l := range lines {
+		text := strings.TrimRight(string(l), "\n")
+		trimmed := strings.TrimLeft(text, " -")
+		indent := len(text) - len(trimmed)
+		key, hasColon := trimmed, false
+		if i := strings.Index(trimmed, ":"); i >= 0 {
+			key, hasColon = trimmed[:i], true
+		}
+		if indent == 0 && hasColon {
+			section = key
+		}
+		isItem := strings.HasPrefix(strings.TrimLeft(text, " "), "- ") && !hasColon // element of a list value (client id, xid, mac bytes)
+		if hasColon && strings.TrimSpace(trimmed[len(key)+1:]) == "" {
+			parent = key // a key whose value is the following block
+		}
+		if off >= pos && off < pos+len(l) {
+			name := key
+			if isItem {
+				name = parent + "[]"
+			}
+			path := section + "." + name
+			if indent == 0 {
+				path = name
+			}
+			col := off - pos
+			if isItem {
+				if col >= indent {
+					return "value-" + path
+				}
+				return "key-" + path
+			}
+			if hasColon && col > indent+len(key) {
+				return "value-" + path
+			}
+			return "key-" + path
+		}
+		pos += len(l)
+	}
+	return "end"
+}
+
+// completesImage: the operation leaves a complete new image under the name of the lease file.
+func completesImage(op vfs.Op) bool {
+	return op.Name == dFile && (op.Kind == "rename" || op.Kind == "close")
+}
+
+// completeImages lists the complete images the lease file went through.
+func completeImages(ops []vfs.Op) [][]byte {
+	var out [][]byte
+	state := map[string][]byte{}
+	for _, op := range ops {
+		vfs.Apply(state, op, -1)
+		if completesImage(op) {
+			out = append(out, append([]byte(nil), state[dFile]...))
+		}
+	}
+	return out
+}
+
+func isStartState(alpha []dEvent, hist []int) bool {
+	for _, sd := range dhcpSeeds(alpha) {
+		if fmt.Sprint(sd) == fmt.Sprint(hist) {
+			return true
+		}
+	}
+	return false
+}
+
 // checkLoaded enforces the clauses that hold for every image: inside the home subnet, with a client identifier.
 func checkLoaded(b []binding) string {
 	for _, x := range b {
@@ -117,9 +244,12 @@ func checkLoaded(b []binding) string {
 
 // dhcpPersistence runs the restart, crash point and corruption checks for the state reached by hist.
 func dhcpPersistence(c *core.Ctx, alpha []dEvent, hist []int, o dhcpOpts, r *dhcpResult) []string {
+	setLayout(o.layout)
 	var out []string
+	seenSig := map[string]bool{}
 	add := func(sig, what string) {
-		if len(out) < 3 {
+		if !seenSig[sig] && len(out) < 40 { // one report per signature and history
+			seenSig[sig] = true
 			out = append(out, "persist|"+sig+"|"+what)
 		}
 	}
@@ -147,85 +277,124 @@ func dhcpPersistence(c *core.Ctx, alpha []dEvent, hist []int, o dhcpOpts, r *dhc
 		}
 		restartOK = failure == ""
 
-		// (ii) crash points of every rewrite: old image, every byte prefix of the new image, the new image.
-		// Rewrites are deduplicated over the whole exploration of this worker by (previous image, new image): the
-		// rewrites of a prefix history were already enumerated when that prefix was explored.
-		images := map[string]bool{}
-		for i, w := range r.written {
-			var old []byte
-			oldPresent := i > 0
-			if i > 0 {
-				old = r.written[i-1]
-			}
-			pairKey := string(old) + "\x00|\x00" + string(w)
-			if seenRewrites[pairKey] {
-				continue
-			}
-			seenRewrites[pairKey] = true
-			c.Count("rewrites_enumerated", 1)
-			// the bindings before and after this rewrite
-			bOld, _, _ := loadImage(s, o.mode, old, oldPresent)
-			bNew, _, f2 := loadImage(s, o.mode, w, true)
-			if f2 != "" {
-				add("crash-complete-image", "the complete image does not load: "+f2)
-				continue
-			}
-			step := 1
-			if !c.Thorough() && len(w) > 400 {
-				step = 3
-			}
-			isAtomic := i < len(r.atomic) && r.atomic[i]
-			var crashImages [][]byte
-			if oldPresent {
-				crashImages = append(crashImages, old)
-			}
-			if isAtomic {
-				// replaced by rename: a crash leaves the previous image or the complete new image, nothing in between
-				c.Count("atomic_rewrites", 1)
-			} else {
-				for n := 0; n <= len(w); n += step {
-					crashImages = append(crashImages, w[:n])
-				}
-			}
-			crashImages = append(crashImages, w)
-			for n, img := range crashImages {
-				key := string(img)
-				if images[key] {
+		// (ii) crash points. The device logs every operation (open/truncate, write, sync, close, rename, remove) on the
+		// lease file and on any temporary file. A crash can leave the device in the state after any prefix of that
+		// log, or in the middle of a write (any byte prefix of its data). For every such state: construction neither
+		// panics nor hangs, yields the bindings of the complete lease file image before or after the interrupted save
+		// (or an empty table), and a SECOND restart - from whatever the recovering handler itself wrote - yields the
+		// same bindings again. Only the operations of the last step are enumerated (those of the prefix history were
+		// enumerated when the prefix was explored), all of them for the start states.
+		from := 0
+		if len(hist) > 0 && len(r.opsAt) == len(hist)+1 && !isStartState(alpha, hist) {
+			from = r.opsAt[len(hist)-1]
+		}
+		type cand struct {
+			at int // index of the operation that completed this image (-1: before the first operation)
+			b  []binding
+		}
+		cands := []cand{{at: -1}}
+		state := map[string][]byte{}
+		for i, op := range r.ops {
+			vfs.Apply(state, op, -1)
+			if completesImage(op) {
+				bb, _, fl := loadImage(s, o.mode, state[dFile], true)
+				if fl != "" {
+					add("crash-complete-image", fmt.Sprintf("the complete image written by operation %d does not load: %s", i, fl))
 					continue
 				}
-				images[key] = true
-				c.Count("crash_images", 1)
-				c.Count("evaluations", 1)
-				b, _, fail := loadImage(s, o.mode, img, true)
-				class := fmt.Sprintf("crash during rewrite #%d leaving a %d byte image (crash image %d of %d; the new file has %d bytes)", i, len(img), n+1, len(crashImages), len(w))
-				if fail != "" {
-					add("crash-"+firstWords(fail, 1), class+": "+fail)
-					continue
-				}
-				if v := checkLoaded(b); v != "" {
-					add("crash-invalid-binding", class+": "+v)
-					continue
-				}
-				if !bindingsEqual(b, bOld) && !bindingsEqual(b, bNew) && len(b) != 0 {
-					add("crash-partial-table", fmt.Sprintf("%s: recovered bindings %v are neither the previous table %v, the new table %v nor empty", class, b, bOld, bNew))
+				cands = append(cands, cand{at: i, b: bb})
+			}
+		}
+		around := func(i int) (before, after []binding) { // i = number of completed operations
+			for _, cd := range cands {
+				if cd.at < i {
+					before = cd.b
 				}
 			}
+			after = before
+			for _, cd := range cands {
+				if cd.at >= i {
+					after = cd.b
+					break
+				}
+			}
+			return
+		}
+		state = map[string][]byte{}
+		for i := 0; i < from && i < len(r.ops); i++ {
+			vfs.Apply(state, r.ops[i], -1)
+		}
+		tryCrash := func(desc string, st map[string][]byte, i int) {
+			before, after := around(i)
+			key := vfs.Key(st) + "\x00" + fmt.Sprint(before) + "\x00" + fmt.Sprint(after)
+			if seenRewrites[key] {
+				return
+			}
+			seenRewrites[key] = true
+			c.Count("crash_images", 1)
+			c.Count("evaluations", 1)
+			b1, left, fail := loadState(s, o.mode, st)
+			if fail != "" {
+				add("crash-"+firstWords(fail, 1), desc+": "+fail)
+				return
+			}
+			if v := checkLoaded(b1); v != "" {
+				add("crash-invalid-binding", desc+": "+v)
+				return
+			}
+			if !bindingsEqual(b1, before) && !bindingsEqual(b1, after) && len(b1) != 0 {
+				add("crash-partial-table", fmt.Sprintf("%s: recovered bindings %v are neither the table before the interrupted save %v, the table after it %v nor empty", desc, b1, before, after))
+				return
+			}
+			b2, _, fail2 := loadState(s, o.mode, left)
+			if fail2 != "" {
+				add("crash-second-restart", fmt.Sprintf("%s: the first restart recovered %v, a second restart fails: %s", desc, b1, fail2))
+			} else if !bindingsEqual(b1, b2) {
+				add("crash-second-restart", fmt.Sprintf("%s: the first restart recovered %v but a second restart (from the files the recovering handler left) yields %v", desc, b1, b2))
+			}
+		}
+		for i := from; i <= len(r.ops); i++ {
+			tryCrash(fmt.Sprintf("crash after %d of %d device operations", i, len(r.ops)), state, i)
+			if i == len(r.ops) {
+				break
+			}
+			op := r.ops[i]
+			if op.Kind == "write" {
+				c.Count("writes_enumerated", 1)
+				for n := 1; n < len(op.Data); n++ {
+					if !c.Thorough() && len(op.Data) > 64 && n > 3 && n < len(op.Data)-2 && n%16 != 0 {
+						continue
+					}
+					torn := map[string][]byte{}
+					for k, v := range state {
+						torn[k] = v
+					}
+					vfs.Apply(torn, op, n)
+					tryCrash(fmt.Sprintf("crash during device operation %d (write to %s torn after %d of %d bytes)", i, op.Name, n, len(op.Data)), torn, i)
+				}
+			}
+			vfs.Apply(state, op, -1)
 		}
 
 		// (iii) corruption of the final image (scripted seed states, and every state in the thorough tier)
-		isSeed := false
-		for _, sd := range dhcpSeeds(alpha) {
-			if fmt.Sprint(sd) == fmt.Sprint(hist) {
-				isSeed = true
-			}
-		}
+		isSeed := isStartState(alpha, hist)
 		if isSeed || c.Thorough() && len(hist) <= 3 {
 			subs := []byte{' ', ':', '-', '0', '9', 'a', '\n', '#', 0xff}
 			step := 1
 			if !c.Thorough() {
 				step = 2
 			}
-			try := func(kind string, img []byte) {
+			intact, _, _ := loadImage(s, o.mode, final, true)
+			inFile := fileBindings(final) // every (client id, MAC, IP) entry written in the original file, whatever its state or expiry
+			inIntact := func(x binding) bool {
+				for _, y := range inFile {
+					if x == y {
+						return true
+					}
+				}
+				return false
+			}
+			try := func(kind, class string, img []byte) {
 				c.Count("corrupt_images", 1)
 				c.Count("evaluations", 1)
 				b, _, fail := loadImage(s, o.mode, img, true)
@@ -235,6 +404,16 @@ func dhcpPersistence(c *core.Ctx, alpha []dEvent, hist []int, o dhcpOpts, r *dhc
 				}
 				if v := checkLoaded(b); v != "" {
 					add("corrupt-invalid-binding", kind+": "+v)
+					return
+				}
+				for _, x := range b {
+					if !inIntact(x) {
+						add("corrupt-absent-binding:"+class, fmt.Sprintf("%s: binding %v is absent from the original file (intact bindings %v)", kind, x, intact))
+						return
+					}
+				}
+				if len(b) != 0 && !bindingsEqual(b, intact) && !bindingsEqual(b, inFile) {
+					add("corrupt-partial-table:"+class, fmt.Sprintf("%s: the loaded table %v is neither the intact table %v nor empty", kind, b, intact))
 				}
 			}
 			for off := 0; off < len(final); off += step {
@@ -244,7 +423,7 @@ func dhcpPersistence(c *core.Ctx, alpha []dEvent, hist []int, o dhcpOpts, r *dhc
 					}
 					img := append([]byte(nil), final...)
 					img[off] = sb
-					try(fmt.Sprintf("byte %d replaced by %q", off, sb), img)
+					try(fmt.Sprintf("byte %d replaced by %q", off, sb), yamlClass(final, off), img)
 				}
 			}
 			lines := bytes.SplitAfter(final, []byte("\n"))
@@ -259,8 +438,10 @@ func dhcpPersistence(c *core.Ctx, alpha []dEvent, hist []int, o dhcpOpts, r *dhc
 						dup = append(dup, l...)
 					}
 				}
-				try(fmt.Sprintf("line %d deleted", i+1), del)
-				try(fmt.Sprintf("line %d duplicated", i+1), dup)
+				lineClass := yamlClass(final, len(bytes.Join(lines[:i], nil)))
+				lineClass = "line-" + strings.TrimPrefix(strings.TrimPrefix(lineClass, "key-"), "value-")
+				try(fmt.Sprintf("line %d deleted", i+1), "deleted-"+lineClass, del)
+				try(fmt.Sprintf("line %d duplicated", i+1), "duplicated-"+lineClass, dup)
 			}
 		}
 	})
@@ -347,7 +528,7 @@ func restartBehaviour(o dhcpOpts, image []byte, want []binding, at int64) (failu
 }
 
 func init() {
-	d := dhcpDriver("persist", "for every distinct lease table reached by the C11 exploration (depth 2, thorough 3, plus scripted seeds): (i) restart from the saved file: bindings equal the acknowledged ones, owners' renewals are ACKed, bound addresses are not offered to a fresh client; (ii) every crash image of every rewrite of the lease file on the logging in-memory device (previous image, every byte prefix of the new image, complete image): construction neither panics nor hangs and yields the previous bindings, the new bindings or an empty table, never a binding outside the home subnet or without client id; (iii) every single-byte substitution by {space : - 0 9 a newline # 0xff} and every line deletion/duplication of the saved file of the seed states: no panic, no hang, no binding outside the home subnet or without client id")
+	d := dhcpDriver("persist", "for every distinct lease table reached by the C11 exploration (depth 2, thorough 3, plus the scripted start states; two address plans): (i) restart from the saved file: bindings equal the ones the running handler held, owners' renewals are ACKed, bound addresses are not offered to a fresh client; (ii) crash points: the in-memory device logs every operation (open/truncate, write, sync, close, rename, remove) on the lease file and on temporary files; for the device state after every prefix of that log and in the middle of every write (every byte prefix in the thorough tier; first/last bytes and every 16th in quick) construction neither panics nor hangs, yields the bindings of the complete lease-file image before or after the interrupted save or an empty table, never a binding outside the home subnet or without client id, and a second restart from the files the recovering handler itself left yields the same bindings; (iii) every single-byte substitution by {space : - 0 9 a newline # 0xff} (quick: every second offset) and every line deletion/duplication of the saved file of the start states (thorough: of every state): no panic, no hang, no binding outside the home subnet or without client id, no binding absent from the original file, and a table that is intact or empty")
 	base := d.Run
 	d.Run = func(c *core.Ctx, args []string) {
 		c.Res.Level = "fault_enumeration"
